@@ -268,13 +268,23 @@ static int reftable_stack_reload_once(struct reftable_stack *st, char **names,
 		if (cur[i]) {
 			const char *name = reader_name(cur[i]);
 			struct strbuf filename = STRBUF_INIT;
+			int still_listed = 0;
+			int j = 0;
+			/* A table rewritten under its own name (compaction of
+			   a single table with log expiry) was opened anew; its
+			   file must stay. */
+			for (j = 0; j < st->readers_len; j++) {
+				if (!strcmp(reader_name(st->readers[j]), name))
+					still_listed = 1;
+			}
 			stack_filename(&filename, st, name);
 
 			reader_close(cur[i]);
 			reftable_reader_free(cur[i]);
 
 			/* On Windows, can only unlink after closing. */
-			unlink(filename.buf);
+			if (!still_listed)
+				unlink(filename.buf);
 
 			strbuf_release(&filename);
 		}
